@@ -101,6 +101,7 @@ fn decode_sched(src: &mut Src, n: usize, feat: u16) -> Sched {
         max_running,
         ack_mode,
         decl: if decl_on { decl } else { vec![] },
+        exact: false,
     }
 }
 
